@@ -208,6 +208,7 @@ func deltaClass(d int64) string {
 // pool level: captured requests replayed verbatim
 
 func TestC05Replay(t *testing.T) {
+	defer vt.Watch("TestC05Replay", 120*time.Second)()
 	rec := vt.For("C05")
 	rec.Rule("pool level, virtual time: a correctly signed vipnode_update / vipnode_peer / pool_withdraw / pool_addNode / vipnode_connect is captured (signature, id, nonce, params) and submitted again verbatim - immediately, after advance(d up to 40min), after close+reopen of the on-disk store, or as two copies racing - while the owner keeps sending newer requests; oracle: every copy after the first is refused with an invalid-nonce verification error and the full-state digest is unchanged (one charge, one payout); racing copies: exactly one honoured; non-trivial = every case (a replay after an acceptance); distinct by (driver, endpoint, replay mode, delay class)")
 	rapid.Check(t, func(rt *rapid.T) {
